@@ -180,7 +180,11 @@ timeo_cb(int UNUSED(signum))
 		sigaction(SIGALRM, &sa, NULL);
 	}
 	block_sigs();
-	kill(chld, SIGXCPU);
+	/* the job is the leader of a process group of its own, see
+	 * run_task(), get everything the command line has started */
+	if (LIKELY(chld > 0)) {
+		kill(-chld, SIGXCPU);
+	}
 	return;
 }
 
@@ -856,8 +860,19 @@ cannot initialise file actions: %s", STRERR);
 		rc += posix_spawn_file_actions_addclose(&fa, t->efd);
 	}
 
-	/* spawn the actual beef process */
-	if (posix_spawn(&chld, *args, &fa, NULL, deconst(args), env) < 0) {
+	/* spawn the actual beef process, in a process group of its own so
+	 * that a timeout can reach whatever the shell forks */
+	posix_spawnattr_t sa;
+
+	if (posix_spawnattr_init(&sa) < 0) {
+		ECHS_ERR_LOG("\
+cannot initialise spawn attributes: %s", STRERR);
+		posix_spawn_file_actions_destroy(&fa);
+		return -1;
+	}
+	rc += posix_spawnattr_setpgroup(&sa, 0);
+	rc += posix_spawnattr_setflags(&sa, POSIX_SPAWN_SETPGROUP);
+	if (posix_spawn(&chld, *args, &fa, &sa, deconst(args), env) < 0) {
 		ECHS_ERR_LOG("cannot spawn `%s': %s", *args, STRERR);
 		rc = -1;
 		t->xc = 127;
@@ -869,6 +884,7 @@ cannot initialise file actions: %s", STRERR);
 
 	/* also get rid of the file actions resources */
 	posix_spawn_file_actions_destroy(&fa);
+	posix_spawnattr_destroy(&sa);
 
 	/* close descriptors that were good for our child only */
 	close(t->ifd);
